@@ -304,6 +304,32 @@ void run_tables(RunCtx& cx) {
         if (cx.describe && cx.description.size() < 3000) cx.description += std::string("add ") + ref::TABLE_NAME[t] + " " + v.substr(0, 30) + " -> " + std::to_string(idx) + "; ";
         T.after_add(t, v, idx);
     }
+    // late repeats in a table with more than 2^16 entries (index types narrower than index_t wrap there)
+    if (growth && cx.kept(0)) {
+        T.blk.clear();
+        for (auto& m : T.m) m.clear();
+        const unsigned N = 65536 + 700;
+        for (unsigned k = 0; k < N; k++) {
+            std::string nm = "n" + std::to_string(k);
+            CDNS::index_t idx = T.blk.add_name_rdata(nm);
+            if (idx != k) { cx.violation("C11", "C11/I07/new-value-wrong-index/name-rdata", "entry " + std::to_string(k) + " of a growing table got index " + std::to_string(idx)); break; }
+            T.blk.add_ip_address(nm);
+        }
+        Rng q(mix_str(cx.seed, "late"));
+        for (unsigned j = 0; j < 300; j++) {
+            unsigned k = j < 150 ? 65536 + (unsigned)q.below(700) : (unsigned)q.below(N);
+            std::string nm = "n" + std::to_string(k);
+            CDNS::index_t a = T.blk.add_name_rdata(nm), b = T.blk.add_ip_address(nm);
+            if (a != k || b != k) {
+                cx.violation("C11", "C11/I07/equal-value-new-index/large-table", "re-adding entry " + std::to_string(k) + " of a table with " + std::to_string(N) + " entries returned index " + std::to_string(a) + "/" + std::to_string(b));
+                break;
+            }
+            if (T.blk.get_name_rdata(a) != nm) { cx.violation("C11", "C11/I07/index-not-stable/large-table", "index " + std::to_string(a) + " does not denote the value it was returned for"); break; }
+        }
+        if (T.blk.m_name_rdata.size() != N) cx.violation("C11", "C11/I07/table-size/large-table", "table grew to " + std::to_string(T.blk.m_name_rdata.size()) + " on repeated adds");
+        cx.ctr->add("probe.table_with_more_than_65536_entries");
+        cx.log.ev("LARGE-TABLE " + std::to_string(N));
+    }
     size_t total = 0;
     for (auto& m : T.m) total += m.items.size();
     cx.ctr->add("table_entries_total", total);
